@@ -288,6 +288,29 @@ func runC08(c *Ctx, w *World, r *Report) {
 				}
 			}
 			if !okA {
+				// the same amount counted from the other side: 8 - width - ((width*ith) & 7) (a word never crosses a
+				// byte boundary because width divides 8, so (p+width-1)&7 = (p&7)+width-1)
+				okB := L.K == 8 && len(L.T) == 2
+				for atom, coef := range L.T {
+					if coef != -1 {
+						okB = false
+						continue
+					}
+					if linAtom(atom).Eq(W) {
+						continue
+					}
+					x, j, ok := asLowMask(fa.AtomValue(atom))
+					if !ok || j != 3 {
+						okB = false
+						continue
+					}
+					if rest, ok := linProductPlus(fa, fa.Lin(x), W, ith); !ok || !rest.Eq(linConst(0)) {
+						okB = false
+					}
+				}
+				okA = okB
+			}
+			if !okA {
 				bad = "shift amount is " + L.String() + ", expected 7 - ((width*ith + width - 1) & 7)"
 			}
 		}
@@ -542,9 +565,61 @@ func runC08(c *Ctx, w *World, r *Report) {
 		}
 		var endFinal ssa.Value
 		nPos := 0
+		type fdLeaf struct {
+			v     ssa.Value
+			blk   *ssa.BasicBlock
+			conds []Cond
+		}
+		var fdLeaves []fdLeaf
+		// the scan bound: the value the counter of the Get(a,i) != Get(b,i) loop is compared with - the clamped end.
+		// Merges are expanded only down to it: an earlier, not yet clamped version of `end` is a different value.
+		var scanBound ssa.Value
+		eachInstr(fn, func(ins ssa.Instruction) {
+			bo, ok := ins.(*ssa.BinOp)
+			if !ok || (bo.Op != token.NEQ && bo.Op != token.EQL) || scanBound != nil {
+				return
+			}
+			ca, ok1 := bo.X.(*ssa.Call)
+			cb, ok2 := bo.Y.(*ssa.Call)
+			if !ok1 || !ok2 || ca.Common().StaticCallee() != fns["bitword.(*bitWord).Get"] || cb.Common().StaticCallee() != fns["bitword.(*bitWord).Get"] {
+				return
+			}
+			if iv, ok := fa.InductionOf(ca.Common().Args[2], bo.Block()); ok && iv.HasN && len(iv.N.T) == 1 && iv.N.K == 0 {
+				for atom := range iv.N.T {
+					scanBound = fa.AtomValue(atom)
+				}
+			}
+		})
+		var expand func(v ssa.Value, blk *ssa.BasicBlock, conds []Cond, depth int)
+		expand = func(v ssa.Value, blk *ssa.BasicBlock, conds []Cond, depth int) {
+			v = stripConv(v)
+			p, isPhi := v.(*ssa.Phi)
+			if !isPhi || isLoopHeaderPhi(p) || v == scanBound || depth > 4 {
+				fdLeaves = append(fdLeaves, fdLeaf{v, blk, conds})
+				return
+			}
+			// a single exit through a result variable (diff := end; ...; diff = i; break): one alternative per edge
+			for i, e := range p.Edges {
+				pred := p.Block().Preds[i]
+				for _, cs := range fa.CondsDNF(pred, 0) {
+					cs2 := append(append(append([]Cond{}, cs...), selfCond(pred, p.Block())...), conds...)
+					expand(e, pred, cs2, depth+1)
+				}
+			}
+		}
 		for _, ret := range returnsOf(fn) {
-			v := stripConv(ret.Results[0])
-			if iv, ok := fa.InductionOf(v, ret.Block()); ok && iv.Step == 1 {
+			for _, cs := range fa.CondsDNF(ret.Block(), 0) {
+				expand(ret.Results[0], ret.Block(), cs, 0)
+			}
+		}
+		seenPos := map[ssa.Value]bool{}
+		for _, lf := range fdLeaves {
+			v := lf.v
+			if iv, ok := fa.InductionOf(v, lf.blk); ok && iv.Step == 1 {
+				if seenPos[v] {
+					continue
+				}
+				seenPos[v] = true
 				nPos++
 				if !iv.FirstLin.Eq(fa.Lin(fn.Params[3])) {
 					bad = "the scan does not start at `from`"
@@ -561,7 +636,7 @@ func runC08(c *Ctx, w *World, r *Report) {
 				}
 				// returned under Get(a,i) != Get(b,i)
 				okC := false
-				for _, cd := range fa.Conds(ret.Block()) {
+				for _, cd := range lf.conds {
 					bo, ok := cd.V.(*ssa.BinOp)
 					if !ok || !(bo.Op == token.NEQ && cd.Pol || bo.Op == token.EQL && !cd.Pol) {
 						continue
@@ -583,12 +658,16 @@ func runC08(c *Ctx, w *World, r *Report) {
 				}
 				continue
 			}
-			// final return: the clamped end
-			if endFinal != nil && v != endFinal {
-				bad = "the no-difference result is not the clamped end"
-			}
-			if endFinal == nil {
-				endFinal = v
+		}
+		// every other result is the clamped end (one of the alternatives the clamps merge)
+		if endFinal != nil {
+			for _, lf := range fdLeaves {
+				if seenPos[lf.v] {
+					continue
+				}
+				if lf.v != endFinal {
+					bad = "the no-difference result is not the clamped end"
+				}
 			}
 		}
 		if nPos != 1 && bad == "" {
@@ -676,10 +755,58 @@ func runC08(c *Ctx, w *World, r *Report) {
 				mk = m
 			}
 		})
-		if mk == nil || !fa.Lin(mk.Len).Eq(linAtom("call:builtin len(p1)")) {
+		appendForm := false
+		if mk != nil {
+			if k, ok := constInt64(stripConv(mk.Len)); ok && k == 0 {
+				appendForm = true // make(.., 0, n) filled by append: one entry per iteration, in iteration order
+			}
+		}
+		if mk == nil || !appendForm && !fa.Lin(mk.Len).Eq(linAtom("call:builtin len(p1)")) {
 			bad = "result does not have len(input) entries"
 		}
 		nst := 0
+		if appendForm {
+			eachInstr(fn, func(ins ssa.Instruction) {
+				ac, ok := ins.(*ssa.Call)
+				if !ok {
+					return
+				}
+				vals := appendedValues(ac)
+				if len(vals) == 0 {
+					return
+				}
+				nst++
+				call, ok := vals[0].(*ssa.Call)
+				if len(vals) != 1 || !ok || call.Common().StaticCallee() != fns[pr[1]] || call.Common().Args[0] != ssa.Value(fn.Params[0]) {
+					bad = "element is not converted with the receiver's own " + pr[1]
+					return
+				}
+				role, ok, why := fullRangeElem(fa, call.Common().Args[1])
+				if !ok || role != canonParam(fn.Params[1]) {
+					bad = "conversion is not applied to every input element: " + why
+					return
+				}
+				// appended on every iteration: nothing but the loop guard decides it
+				_, idx, _ := asElemLoad(call.Common().Args[1])
+				iv, okIV := fa.InductionOf(idx, ac.Block())
+				for _, cd := range fa.Conds(ac.Block()) {
+					if !okIV || cd.If.Block() != iv.Phi.Block() {
+						bad = "an element is appended only on the branch at " + w.InstrPos(cd.If) + ": the result then has fewer entries than the input and the indexes shift"
+					}
+				}
+				// and the list appended to is the result list
+				base := ac.Common().Args[0]
+				okBase := false
+				for _, src := range resolvePhi(base) {
+					if src == ssa.Value(mk) {
+						okBase = true
+					}
+				}
+				if !okBase {
+					bad = "the converted element is not appended to the result list"
+				}
+			})
+		}
 		eachInstr(fn, func(ins ssa.Instruction) {
 			st, ok := ins.(*ssa.Store)
 			if !ok {
@@ -696,7 +823,7 @@ func runC08(c *Ctx, w *World, r *Report) {
 				return
 			}
 			role, ok, why := fullRangeElem(fa, call.Common().Args[1])
-			if !ok || role != fn.Params[1].Name() {
+			if !ok || role != canonParam(fn.Params[1]) {
 				bad = "conversion is not applied to every input element: " + why
 				return
 			}
